@@ -12,7 +12,14 @@ import diffprof, bytesprof, confprof, reloadprof, logsprof, modprof
 
 
 def build():
-    cp = subprocess.run(["make", "-C", "/verif", "build"], capture_output=True, text=True)
+    # VERIF_REPO / VERIF_BUILD let a scratch copy of the repository be checked (seeded changes, background
+    # sweeps) without touching /repo; the registered commands never set them, so they build /repo's working tree.
+    cmd = ["make", "-C", "/verif", "build"]
+    if os.environ.get("VERIF_REPO"):
+        cmd.append("REPO=" + os.environ["VERIF_REPO"])
+    if os.environ.get("VERIF_BUILD"):
+        cmd.append("B=" + os.environ["VERIF_BUILD"])
+    cp = subprocess.run(cmd, capture_output=True, text=True)
     if cp.returncode != 0:
         sys.stdout.write(cp.stdout[-3000:])
         sys.stderr.write(cp.stderr[-3000:])
